@@ -48,7 +48,7 @@ def generate(ctx):
     pre = []
     for _ in range(tape.draw(3, "pre.n")):
         pre.append({"op": "get", "src": 0, "field": fmt.fields[tape.draw(len(fmt.fields), "pre.field")][0]})
-    api = [tape.draw(len(API), "api.f") for _ in range(1 + tape.draw(3, "api.n"))]
+    api = [tape.draw(len(API), "api.f") for _ in range(2 + tape.draw(5, "api.n"))]
     return {"file": fd, "chunk_k": k, "ops": pre + ops, "api": api}
 
 
@@ -110,7 +110,8 @@ def _api():
         import bionumpy.datatypes as dt
         s = np.asarray(table.start) % 1000
         e = s + 1 + np.asarray(table.stop) % 50
-        return dt.Interval(["chr1"] * len(s), np.sort(s), np.sort(s) + (e - s))
+        # unsorted, possibly nested / duplicated intervals: sort and merge have work to do
+        return dt.Interval(["chr1"] * len(s), s[::-1].copy(), e[::-1].copy())
 
     def dna(b, table, fmt):
         if "sequence" not in fmt.field_names() or fmt.name == "sam":
@@ -149,6 +150,91 @@ def _api():
     def f_tolist(b, x):
         return x.tolist()
 
+    # -- more interval arithmetic (two-argument functions are called with the table and a shifted copy of it)
+    def _shifted(x):
+        import bionumpy.datatypes as dt
+        return dt.Interval(x.chromosome, np.asarray(x.start) + 2, np.asarray(x.stop) + 3)
+
+    def f_intersect(b, x):
+        return b.arithmetics.intersect(x, _shifted(x))
+
+    def f_unique_intersect(b, x):
+        return b.arithmetics.unique_intersect(x, _shifted(x), 2000)
+
+    def f_count_overlap(b, x):
+        return b.arithmetics.count_overlap(x, _shifted(x))
+
+    def f_jaccard(b, x):
+        return b.arithmetics.jaccard({"chr1": 2000}, x, _shifted(x))
+
+    # -- genomic-data methods on the interval table handed to Genome.get_intervals
+    def _gi(b, x):
+        return b.Genome.from_dict({"chr1": 2000}).get_intervals(x)
+
+    def f_g_mask(b, x):
+        return _gi(b, x).get_mask().get_data()
+
+    def f_g_pileup(b, x):
+        return _gi(b, x).get_pileup().get_data()
+
+    def f_g_merged(b, x):
+        return _gi(b, x).merged().get_data()
+
+    def f_g_clip(b, x):
+        return _gi(b, x).clip().get_data()
+
+    def f_g_extended(b, x):
+        return _gi(b, x).extended_to_size(30).get_data()
+
+    def f_g_sorted(b, x):
+        return _gi(b, x).sorted().get_data()
+
+    # -- table methods
+    def f_t_sort_by(b, x):
+        return x.sort_by("start")
+
+    def f_t_concat(b, x):
+        return np.concatenate([x, x])
+
+    def f_t_replace(b, x):
+        return b.replace(x, start=np.asarray(x.start) + 1)
+
+    def f_t_reverse(b, x):
+        return x[::-1]
+
+    def f_t_tolist(b, x):
+        return x.tolist()
+
+    def f_t_mask(b, x):
+        return x[np.asarray(x.start) % 2 == 0]
+
+    # -- more sequence functions
+    def f_kmers3(b, x):
+        return b.sequence.get_kmers(x, 3)
+
+    def f_minimizers(b, x):
+        return b.sequence.get_minimizers(x, 2, 3)
+
+    def f_count_kmers(b, x):
+        return b.sequence.count_kmers(x, 2)
+
+    def f_match_string(b, x):
+        return b.sequence.match_string(x, "AC")
+
+    def f_translate(b, x):
+        return b.sequence.translate_dna_to_protein(x[:, :3])
+
+    def f_as_ascii(b, x):
+        return b.as_encoded_array(x, b.encodings.BaseEncoding)
+
+    def text_seq(b, table, fmt):
+        if "sequence" not in fmt.field_names() or fmt.name == "sam":
+            return None
+        return b.as_encoded_array([str(s) for s in plain(table.sequence)])
+
+    def f_to_dna(b, x):
+        return b.as_encoded_array(x, b.DNAEncoding)
+
     return [("str_to_int", ints_text, f_str_to_int), ("str_to_float", floats_text, f_str_to_float),
             ("str_to_int_plus_signed", ints_text_plus, f_str_to_int), ("str_to_int_unsigned", ints_text_unsigned, f_str_to_int),
             ("str_to_float_positive", floats_text_positive, f_str_to_float),
@@ -156,7 +242,18 @@ def _api():
             ("sort_intervals", intervals, f_sort), ("merge_intervals", intervals, f_merge),
             ("get_boolean_mask", intervals, f_mask), ("get_pileup", intervals, f_pileup),
             ("get_reverse_complement", dna, f_revcomp), ("get_kmers", dna, f_kmers),
-            ("change_encoding", dna, f_change_encoding), ("tolist", dna, f_tolist)]
+            ("change_encoding", dna, f_change_encoding), ("tolist", dna, f_tolist),
+            ("intersect", intervals, f_intersect), ("unique_intersect", intervals, f_unique_intersect),
+            ("count_overlap", intervals, f_count_overlap), ("jaccard", intervals, f_jaccard),
+            ("genome_get_mask", intervals, f_g_mask), ("genome_get_pileup", intervals, f_g_pileup),
+            ("genome_merged", intervals, f_g_merged), ("genome_clip", intervals, f_g_clip),
+            ("genome_extended_to_size", intervals, f_g_extended), ("genome_sorted", intervals, f_g_sorted),
+            ("table_sort_by", intervals, f_t_sort_by), ("table_concatenate", intervals, f_t_concat),
+            ("table_replace", intervals, f_t_replace), ("table_reverse", intervals, f_t_reverse),
+            ("table_tolist", intervals, f_t_tolist), ("table_mask", intervals, f_t_mask),
+            ("get_kmers_3", dna, f_kmers3), ("get_minimizers", dna, f_minimizers), ("count_kmers", dna, f_count_kmers),
+            ("match_string", dna, f_match_string), ("translate", dna, f_translate), ("as_encoded_array_base", dna, f_as_ascii),
+            ("as_encoded_array_dna", text_seq, f_to_dna)]
 
 
 API = _api()
